@@ -31,14 +31,19 @@ TypedVal(t, n, l) == [t |-> t, s |-> "", n |-> n, l |-> l]
 Vals == CASE Size = "s" -> {StrVal("v1")}
           [] Size = "v" -> {StrVal("v1"), IntVal(-7), TypedVal("float", 3, <<>>), TypedVal("bool", 1, <<>>), NullVal,
                             TypedVal("datetime", 61, <<>>), TypedVal("list", 0, <<IntVal(1), StrVal("v2"), TypedVal("bool", 0, <<>>)>>)}
+          \* "w": values of one key that only a loose comparison would conflate (C10): numbers and the strings that read as them,
+          \* booleans and yes-words, null and a list
+          [] Size = "w" -> {StrVal("v1"), StrVal("1"), IntVal(1), StrVal("1.5"), TypedVal("float", 3, <<>>), TypedVal("float", 2, <<>>), TypedVal("bool", 0, <<>>),
+                            TypedVal("bool", 1, <<>>), StrVal("yes"), NullVal, TypedVal("list", 0, <<IntVal(1), StrVal("v2")>>), TypedVal("list", 0, <<>>)}
           [] OTHER -> {StrVal("v1"), IntVal(1)}
 
 \* references to live items, by handle and (when they have one) by id
 RefsTo(items, live) == {ByH(h) : h \in live} \cup {ById(items[h].id) : h \in {x \in live : items[x].id # ""}}
 
-ResRefs == RefsTo(st.res, LiveRes(st))
-SetRefs == RefsTo(st.sets, LiveSets(st))
-AnnRefs == {ByH(h) : h \in LiveAnns(st)}
+ResRefs == RefsTo(st.res, LiveRes(st)) \cup (IF Scenario = "remove" THEN {ByTemp("R", h - 1) : h \in LiveRes(st)} ELSE {})
+SetRefs == RefsTo(st.sets, LiveSets(st)) \cup (IF Scenario = "remove" THEN {ByTemp("S", h - 1) : h \in LiveSets(st)} ELSE {})
+\* (removals also address items through their temporary identifier, whether or not they have a public one)
+AnnRefs == {ByH(h) : h \in LiveAnns(st)} \cup (IF Scenario = "remove" THEN {ByTemp("A", h - 1) : h \in LiveAnns(st)} ELSE {})
 
 OffMenu == IF Small THEN {Off("B", 0, "B", 1), Off("B", 0, "E", 0)}
            ELSE {Off("B", 0, "B", 1), Off("B", 1, "B", 2), Off("B", 0, "E", 0), Off("E", -1, "E", 0), Off("B", 2, "B", 2)}
@@ -112,6 +117,30 @@ AnnotateMenu ==
            {[id |-> i, target |-> t, data |-> d] : i \in AnnIds, t \in BadTargets, d \in {<<>>} \cup {x \in DataMenu : Len(x) = 1 /\ x[1].id.by = "none"}}
            \cup {[id |-> i, target |-> t, data |-> d] : i \in AnnIds, t \in {x \in SimpleTargets : x.kind \in {"Text", "Res"}}, d \in BadDataMenu \cup {<<>>}}
       [] OTHER -> {[id |-> i, target |-> t, data |-> d] : i \in AnnIds, t \in SimpleTargets \cup ComplexTargets, d \in DataMenu}
+
+\* C14, batches: two or three annotations, at most one of them wrong (unknown resource, offset beyond the text, an
+\* identifier in use in the store or earlier in the same batch, data with an unknown or missing key, a nested complex selector)
+BatchItems ==
+    LET txt(b, e) == TB("Text", ById("r1"), NoRef, Off("B", b, "B", e))
+        dk(k, v) == <<DB(ById("s1"), ById(k), NoRef, StrVal(v))>>
+        good == {[id |-> "b1", target |-> txt(0, 1), data |-> dk("k1", "v1")],
+                 [id |-> "", target |-> TB("Ann", ById("b1"), NoRef, NoOffset), data |-> dk("k3", "v3")],
+                 [id |-> "b2", target |-> TB("Res", ById("r1"), NoRef, NoOffset), data |-> <<>>],
+                 [id |-> "b5", target |-> txt(1, 3), data |-> <<>>]}
+        bad == {[id |-> "b3", target |-> TB("Text", ById("nope"), NoRef, Off("B", 0, "B", 1)), data |-> <<>>],
+                [id |-> "b3", target |-> txt(2, 9), data |-> dk("k4", "v4")],
+                [id |-> "a1", target |-> txt(1, 2), data |-> <<>>],
+                [id |-> "b1", target |-> txt(2, 3), data |-> <<>>],
+                [id |-> "b4", target |-> txt(0, 2), data |-> <<DB(ById("s1"), ById("k5"), NoRef, StrVal("v5")), DB(ById("s1"), NoRef, NoRef, StrVal("v1"))>>],
+                [id |-> "b6", target |-> Complex("Multi", <<Complex("Multi", <<txt(0, 1), txt(1, 2)>>), txt(2, 3)>>), data |-> <<>>],
+                \* no target at all: in a file this is already rejected when the document is read, before anything is added
+                [id |-> "b7", target |-> NoTarget, data |-> dk("k6", "v6")]}
+    IN [good |-> good, bad |-> bad]
+Batches ==
+    LET g == BatchItems.good
+        b == BatchItems.bad
+        all == g \cup b
+    IN {<<x, y>> : x \in all, y \in all} \cup {<<x, y, z>> : x \in g, y \in all, z \in g} \cup {<<x, y, z>> : x \in g, y \in g, z \in b}
 
 \* a fixed prelude so that the depth budget of generated behaviours is spent on interesting steps
 PreludeOps ==
@@ -202,10 +231,10 @@ Step(ev, a) ==
     /\ st' = ApplyAny(st, ev, a).st
     /\ hist' = Append(hist, [ev |-> ev, a |-> a])
 
-Building == Scenario \notin {"remove", "protect", "transpose"}
+Building == Scenario \notin {"remove", "protect", "transpose", "batch"}
 \* tuning steps do not change the specification state, so they are only worth generating when histories are emitted
 Tuning == ~EmitAll
-Adding == Scenario \notin {"remove", "offsets", "related", "textops"}
+Adding == Scenario \notin {"remove", "offsets", "related", "textops", "batch"}
 \* C07: one resource per behaviour, over every text up to P1 characters of the alphabet selected by P2
 TextAlphabet == CASE P2 = 1 -> {11, 41, 12} [] P2 = 2 -> {11, 22, 32} [] P2 = 3 -> {11, 31, 21} [] OTHER -> {11, 14, 41}
 
@@ -237,6 +266,7 @@ Next ==
     \/ Scenario = "transpose" /\ \E r \in LiveRes(st) : \E x \in RangesOf(Len(st.res[r].text)) :
           x[1] < x[2] /\ (\A y \in LiveAnns(st) : st.anns[y].id # "src" \o ToString(r) \o ToString(x[1]) \o ToString(x[2])) /\
           Step("Annotate", [id |-> "src" \o ToString(r) \o ToString(x[1]) \o ToString(x[2]), target |-> TB("Text", ByH(r), NoRef, Off("B", x[1], "B", x[2])), data |-> <<>>])
+    \/ Scenario = "batch" /\ \E items \in Batches, via \in {"iter", "file"} : Step("AnnotateBatch", [items |-> items, via |-> via])
     \/ Scenario \in {"all", "protect"} /\ \E m \in {"checksum", "text", "both", "auto"} : Step("ProtectText", [mode |-> m])
     \/ Scenario \in {"all", "offsets"} /\ Tuning /\ Step("ShrinkToFit", [x |-> 0])
 
@@ -417,7 +447,29 @@ QueriesOf ==
     \cup {Q("SELECT", "ANNOTATION", "x", <<CUnion(<<c1, c2>>)>>, <<>>) : c1 \in QAnnCore, c2 \in QAnnCore}
     \cup {Q("SELECT", "ANNOTATION", "x", <<c, CLimit(l[1], l[2])>>, <<>>) : c \in {d \in QAnnCore : d.k \in {"Res", "Key"}}, l \in {<<0, 1>>, <<0, 2>>, <<1, 0>>, <<-1, 0>>, <<0, -1>>, <<1, 2>>, <<-2, -1>>}}
     \cup {Q("SELECT", "ANNOTATION", "x", <<c>>, <<sq>>) : c \in {d \in QAnnCore : d.k \in {"Res", "Key", "Set"}}, sq \in QSubs \cup {Optional(z) : z \in QSubs}}
+\* TEXT and RESOURCE results.  (Asked only of stores in which every known text selection still has an annotation: the
+\* documentation does not say whether selections orphaned by removals count as results.)
+NoOrphans == \A r \in LiveRes(st) : \A i \in DOMAIN st.res[r].tsel :
+                 \E x \in LiveAnns(st) : <<r, st.res[r].tsel[i][1], st.res[r].tsel[i][2]>> \in Range(AnnText(st, x))
+QTextCore == {CRes(i, FALSE) : i \in QResIds} \cup {CKey(p[1], p[2], FALSE) : p \in QSetKeys}
+             \cup {CKeyVal(p[1], p[2], "=", StrVal("v1"), FALSE) : p \in QSetKeys} \cup {CValue("=", StrVal("v1")), CValue("!=", StrVal("v1"))}
+QTextQueries ==
+    {Q("SELECT", "TEXT", "x", <<>>, <<>>)}
+    \cup {Q("SELECT", "TEXT", "x", <<c>>, <<>>) : c \in QTextCore \cup {CAnn(i, FALSE, FALSE) : i \in QAnnIds} \cup {CText(n, nc) : n \in QNeedles, nc \in BOOLEAN}
+                                                       \cup {CKeyVal(p[1], p[2], ov[1], ov[2], FALSE) : p \in QSetKeys, ov \in QOpVals}}
+    \cup {Q("SELECT", "TEXT", "x", <<c1, c2>>, <<>>) : c1 \in QTextCore \cup {CAnn(i, FALSE, FALSE) : i \in QAnnIds}, c2 \in QTextCore}
+    \cup {Q("SELECT", "TEXT", "x", <<c, CLimit(l[1], l[2])>>, <<>>) : c \in {CRes(i, FALSE) : i \in QResIds}, l \in {<<0, 1>>, <<1, 0>>, <<-1, 0>>, <<0, -1>>, <<-2, -1>>}}
+    \cup {Q("SELECT", "TEXT", "x", <<c>>, <<sq>>) : c \in {CRes(i, FALSE) : i \in QResIds},
+             sq \in {Q("SELECT", "ANNOTATION", "y", <<CTextVar("x")>>, <<>>), Q("SELECT", "DATA", "y", <<CTextVar("x")>>, <<>>)}
+                    \cup {Q("SELECT", "TEXT", "y", <<CRelation("x", kw)>>, <<>>) : kw \in {"EMBEDS", "EMBEDDED", "OVERLAPS", "BEFORE", "SUCCEEDS", "SAMEBEGIN"}}}
+    \cup {Q("SELECT", "ANNOTATION", "x", <<c>>, <<Q("SELECT", "TEXT", "y", <<CAnnVar("x", FALSE, FALSE)>>, <<>>)>>) : c \in {d \in QAnnCore : d.k \in {"Res", "Key"}}}
+    \cup {Q("SELECT", "DATA", "x", <<c>>, <<Q("SELECT", "TEXT", "y", <<CDataVar("x", FALSE)>>, <<>>)>>) : c \in {CKey(p[1], p[2], FALSE) : p \in QSetKeys}}
+    \cup {Q("SELECT", "RESOURCE", "x", <<>>, <<>>)}
+    \cup {Q("SELECT", "RESOURCE", "x", <<c>>, <<>>) : c \in {CId(i) : i \in QResIds} \cup {CKey(p[1], p[2], q) : p \in QSetKeys, q \in BOOLEAN}
+                                                            \cup {CKeyVal(p[1], p[2], "=", StrVal("v1"), q) : p \in QSetKeys, q \in BOOLEAN}}
+    \cup {Q("SELECT", "RESOURCE", "x", <<>>, <<Q("SELECT", "TEXT", "y", <<CResVar("x", FALSE)>>, <<>>)>>)}
 QueryOps == {RO("Query", [q |-> q, form |-> f]) : q \in QueriesOf, f \in {"text", "built"}}
+TextQueryOps == IF NoOrphans THEN {RO("Query", [q |-> q, form |-> f]) : q \in QTextQueries, f \in {"text", "built"}} ELSE {}
 
 ----------------------------------------------------------------------------
 (* C19: structural mutations of the serialisations of the current store (interpreted by the harness, which writes the   *)
@@ -448,7 +500,13 @@ LoadOps ==
 \* C10: data search by set / key / value test, through the store and through the dataset
 FindOps == {RO("FindData", [set |-> sk[1], key |-> sk[2], op |-> ov[1], v |-> ov[2], via |-> via]) :
                sk \in QSetKeys \cup {<<st.sets[s].id, "">> : s \in LiveSets(st)} \cup {<<"", "">>},
-               ov \in QOpVals \cup {<<"=", [t |-> "any", s |-> "", n |-> 0, l |-> <<>>]>>, <<"=", StrVal("v2")>>, <<"!=", IntVal(1)>>, <<"=", IntVal(-7)>>},
+               ov \in QOpVals \cup {<<"=", [t |-> "any", s |-> "", n |-> 0, l |-> <<>>]>>, <<"=", StrVal("v2")>>, <<"!=", IntVal(1)>>, <<"=", IntVal(-7)>>,
+                                    <<"=", StrVal("1")>>, <<"!=", StrVal("1")>>, <<"=", StrVal("1.5")>>, <<"=", StrVal("yes")>>, <<"=", StrVal("-7")>>,
+                                    <<"=", TypedVal("bool", 0, <<>>)>>, <<"=", TypedVal("float", 2, <<>>)>>,
+                                    <<"or", TypedVal("list", 0, <<StrVal("v1"), IntVal(1)>>)>>, <<"!or", TypedVal("list", 0, <<StrVal("v1"), NullVal>>)>>,
+                                    <<"or", TypedVal("list", 0, <<StrVal("1"), TypedVal("bool", 1, <<>>)>>)>>,
+                                    <<"and", TypedVal("list", 0, <<IntVal(-8), IntVal(1)>>)>>, <<"and", TypedVal("list", 0, <<IntVal(0), IntVal(2)>>)>>,
+                                    <<"has", StrVal("v2")>>, <<"has", IntVal(1)>>, <<"has", StrVal("1")>>, <<"has", TypedVal("float", 2, <<>>)>>},
                via \in {"store", "set"}}
 
 Has(x) == x \in Reads
@@ -459,6 +517,7 @@ ReadOps ==
     \o (IF Has("finddata") THEN SetToSeq(FindOps) ELSE <<>>)
     \o (IF Has("loads") THEN SetToSeq(LoadOps) ELSE <<>>)
     \o (IF Has("queries") THEN SetToSeq(QueryOps) ELSE <<>>)
+    \o (IF Has("textqueries") THEN SetToSeq(TextQueryOps) ELSE <<>>)
     \o (IF Has("webanno") THEN SetToSeq({RO("WebAnno", [ann |-> ByH(x), tmpl |-> t, ns |-> n]) : x \in LiveAnns(st), t \in BOOLEAN, n \in BOOLEAN}) ELSE <<>>)
     \o (IF Has("validate") THEN <<RO("Validate", [x |-> 0])>> ELSE <<>>)
     \o (IF Has("bytes") THEN SetToSeq(ByteOps) ELSE <<>>)
